@@ -1089,3 +1089,75 @@ Proof.
   intros H0 Hm Hl. rewrite read_msg_error; [rewrite H0; reflexivity| |exact Hm|exact Hl].
   unfold int32_range. rewrite H0. lia.
 Qed.
+
+(* ---------------------------------------------------------------------------------------- *)
+(* callers: delivery needs "no read is abandoned"                                             *)
+Lemma serve_no_abandon reqs : forall frames,
+  no_abandon reqs = true -> length reqs = length frames -> serve reqs frames = (frames, []).
+Proof.
+  induction reqs as [|r reqs IH]; intros frames Hn Hl.
+  - destruct frames; [reflexivity|discriminate].
+  - destruct frames as [|f fs]; [discriminate|]. injection Hl as Hl.
+    destruct r; [|discriminate]. cbn [no_abandon forallb] in Hn. cbn [serve].
+    rewrite IH by assumption. reflexivity.
+Qed.
+
+Lemma Forall2_len {A B} (R : A -> B -> Prop) a b : Forall2 R a b -> length a = length b.
+Proof. induction 1; cbn; congruence. Qed.
+
+(* order/delivery as the callers see it, with the explicit premise that no read is abandoned:
+   one ReadMsg/ReadHeader call per written item, each running to completion, under any chunking *)
+Theorem callers_roundtrip its cs reqs :
+  Forall item_ok its -> concat cs = stream_of its ->
+  no_abandon reqs = true -> length reqs = length its ->
+  exists got, serve reqs (out (feed_chunks cs)) = (got, []) /\ Forall2 delivered its got.
+Proof.
+  intros W E Hn Hl. destruct (session_roundtrip its cs W E) as (_ & _ & HF).
+  exists (out (feed_chunks cs)). split; [|exact HF].
+  apply serve_no_abandon; [exact Hn|]. rewrite Hl. eapply Forall2_len. exact HF.
+Qed.
+
+(* without the premise it fails: a read given up before its frame arrived takes the first
+   message with it; the next read returns the second message written, the first is never seen *)
+Lemma abandoned_read_loses_refuted :
+  exists its cs reqs,
+    Forall item_ok its /\ concat cs = stream_of its /\ length reqs = S (length (fst (serve reqs (out (feed_chunks cs))))) /\
+    serve reqs (out (feed_chunks cs)) = ([item_body (IMsg (x "0a0374776f"))], [item_body (IMsg (x "0a036f6e65"))]) /\
+    fst (serve reqs (out (feed_chunks cs))) <> map item_body (firstn 1 its).
+Proof.
+  exists [IMsg (x "0a036f6e65"); IMsg (x "0a0374776f")],
+         [stream_of [IMsg (x "0a036f6e65"); IMsg (x "0a0374776f")]], [ReqAbandoned; ReqRead].
+  split; [repeat constructor; vm_compute; congruence|].
+  split; [cbn [concat]; apply app_nil_r|]. split; [vm_compute; reflexivity|].
+  split; [vm_compute; reflexivity|].
+  vm_compute. discriminate.
+Qed.
+
+(* an abandoned WRITE is still written: all calls, given up or not, reach the reader in order *)
+Theorem given_up_writes_still_arrive ws cs :
+  Forall (fun w => len_of (enc_streammsg (BData (snd w))) <= max_msg) ws ->
+  concat cs = concat (wire_of_calls ws) ->
+  map read_msg (out (feed_chunks cs)) = map (fun w => RData (snd w)) ws.
+Proof.
+  intros W E.
+  destruct (frames_roundtrip (map (fun w => enc_streammsg (BData (snd w))) ws) cs) as (Ho & _ & _).
+  - apply Forall_forall. intros b Hin. apply in_map_iff in Hin. destruct Hin as (w & <- & Hin).
+    rewrite Forall_forall in W. apply W. exact Hin.
+  - rewrite E. unfold frames_of, wire_of_calls. rewrite map_map. reflexivity.
+  - rewrite Ho, map_map. clear - W. induction W as [|w ws Hw _ IH]; [reflexivity|].
+    cbn [map]. rewrite read_msg_data by exact Hw. rewrite IH. reflexivity.
+Qed.
+
+(* an error member with code OK: the call returns nil and the destination is not touched, i.e.
+   the caller cannot tell it from a successfully read message that happens to equal what the
+   destination already held (outside the property: it speaks of non-OK statuses) *)
+Theorem ok_error_frame_view inner_ok s :
+  st_code s = 0%Z -> status_marshal_ok s = true -> len_of (enc_streammsg (BError s)) <= max_msg ->
+  view_of inner_ok (read_msg (enc_streammsg (BError s))) = {| returns_nil := true; dest_touched := false |}.
+Proof. intros H0 Hm Hl. rewrite ok_status_reads_as_nothing by assumption. reflexivity. Qed.
+
+(* conversely a call returns nil only for a data member or an OK-coded error member *)
+Theorem returns_nil_only fr inner_ok :
+  returns_nil (view_of inner_ok (read_msg fr)) = true ->
+  (exists d, read_msg fr = RData d) \/ read_msg fr = ROkNoData.
+Proof. destruct (read_msg fr) eqn:E; cbn; intros H; try discriminate; [left; eexists; reflexivity|right; reflexivity]. Qed.
